@@ -13,4 +13,6 @@ import BnpVerif.Props.C17
 #print axioms C17.traced_kernel
 #print axioms C17.traced_bytes_to_read
 #print axioms C17.fetch_uses_traced
+#print axioms C17.fast_path_same
+#print axioms C17.index_reader_chunks
 #print axioms C17.contig_lengths_old_unsound
